@@ -334,6 +334,107 @@ def x5_check():
     return n, bad
 
 
+def x5b_check():
+    """self-join with the alias() copy on either side: references through either table object denote that side"""
+    import polars as pl
+    import sqlalchemy as sqa
+
+    n, bad = 0, []
+    df = pl.DataFrame({"id": [1, 2, 3, 4, 5], "boss": [None, 1, 1, 2, 4], "pay": [100, 70, 60, 40, 30]})
+    ids, boss, pay = df["id"].to_list(), df["boss"].to_list(), df["pay"].to_list()
+    # expected: for every employee with a boss: (employee id, boss id, employee pay - boss pay)
+    want = sorted((i, b, p - pay[ids.index(b)]) for i, b, p in zip(ids, boss, pay) if b is not None)
+    for be in ("polars", "sqlite"):
+        if be == "polars":
+            emp = pdt.Table(df, name="emp")
+        else:
+            eng = sqa.create_engine("sqlite://")
+            df.write_database("emp", eng)
+            emp = pdt.Table("emp", pdt.SqlAlchemy(eng))
+        mgr = emp >> pdt.alias("mgr")
+        shapes = {
+            "alias_left": lambda: mgr >> pdt.join(emp, mgr.id == emp.boss, "inner"),
+            "alias_right": lambda: emp >> pdt.join(mgr, mgr.id == emp.boss, "inner"),
+            "alias_left_derived": lambda: (mgr >> pdt.filter(mgr.pay > 0)) >> pdt.join(emp >> pdt.mutate(k=emp.pay * 1), mgr.id == emp.boss, "inner"),
+            "alias_left_cross_filter": lambda: mgr >> pdt.cross_join(emp) >> pdt.filter(mgr.id == emp.boss),
+        }
+        for name, mk in shapes.items():
+            n += 1
+            try:
+                j = mk()
+                out = j >> pdt.mutate(e_id=emp.id, m_id=mgr.id, d=emp.pay - mgr.pay) >> pdt.select(pdt.C.e_id, pdt.C.m_id, pdt.C.d) >> pdt.export(pdt.Polars())
+                got = sorted(out.rows())
+                if got != want:
+                    bad.append(f"{be} {name}: (employee, boss, pay difference) = {got}, expected {want}")
+                nm_e, nm_m = j[emp.pay].name, j[mgr.pay].name
+                full = j >> pdt.export(pdt.Polars())
+                if sorted(zip(full[nm_e].to_list(), full[nm_m].to_list())) != sorted((p, pay[ids.index(b)]) for b, p in zip(boss, pay) if b is not None):
+                    bad.append(f"{be} {name}: the columns named j[emp.pay].name={nm_e!r} / j[mgr.pay].name={nm_m!r} do not hold employee / boss pay")
+            except Exception as e:  # noqa: BLE001
+                bad.append(f"{be} {name}: {type(e).__name__}: {str(e)[:200]}")
+    return n, bad
+
+
+def make_x6(backend, kind):
+    """alias() is transparent: ctx >> alias() >> step == ctx >> step (contexts include a hidden grouping column)"""
+    from .. import pipelines as P
+
+    def run(carve):
+        import warnings
+
+        n, bad = 0, []
+        B = {st.label: st for st in P.steps()}
+        E = {st.label: st for st in P.expr_steps()}
+        ctxs = [list(c) for c in P.contexts()]
+        ctxs.append([P.Step("group_by(f,s)", lambda x, c: x >> pdt.group_by(x.f, x.s), "keep", ("f", "s"), False, False), P.Step("select(h,a,b)", lambda x, c: x >> pdt.select(x.h, x.a, x.b), "keep", ("h", "a", "b"), False, False)])
+        ctxs.append([P.Step("group_by(f)", lambda x, c: x >> pdt.group_by(x.f), "keep", ("f",), False, False), P.Step("mutate(f=~f)", lambda x, c: x >> pdt.mutate(f=~x.f), "keep", ("f",), False, False)])
+        tails = [B[l] for l in ("filter(a>1)", "mutate(x=a+h)", "mutate(sm=a.sum)", "mutate(w=row_number)", "summarize(n,m)", "summarize(sa)", "select(h,a)", "arrange(h.desc)", "ungroup", "group_by(a)")] + [E[l] for l in ("agg_window(nopart)", "agg_window_filter(nopart)", "arith") if l in E]
+        aliases = (("alias()", lambda x: x >> pdt.alias("al")), ("alias(keep_col_refs=True)", lambda x: x >> pdt.alias("al", keep_col_refs=True)))
+        with warnings.catch_warnings():
+            warnings.simplefilter("ignore")
+            for cx in ctxs:
+                for tl in tails:
+                    pl_ = P.plan(cx + [tl])
+                    if pl_ is None or pl_[1]:
+                        continue
+                    ordered = pl_[0]
+                    res = {}
+                    for aname, af in (("none", lambda x: x),) + aliases:
+                        c = P.Ctx(backend, kind)
+                        x = c.t
+                        try:
+                            for st in cx:
+                                if not P._has(x, *st.needs):
+                                    raise LookupError
+                                x = st.fn(x, c)
+                            x = af(x)
+                            if not P._has(x, *tl.needs):
+                                raise LookupError
+                            y = tl.fn(x, c)
+                            df = y >> pdt.ungroup() >> pdt.export(pdt.Polars())
+                            res[aname] = ("ok", list(df.columns), P.norm_rows([tuple(r) for r in df.rows()], ordered))
+                        except LookupError:
+                            res[aname] = ("n/a",)
+                        except P.OK_REFUSALS:
+                            res[aname] = ("refused",)
+                        except (ValueError, TypeError, pdt.errors.ColumnNotFoundError, pdt.errors.FunctionTypeError, pdt.errors.DataTypeError) as e:
+                            res[aname] = ("rejected", type(e).__name__)
+                        except Exception as e:  # noqa: BLE001
+                            res[aname] = ("error", f"{type(e).__name__}: {str(e)[:120]}")
+                    if res["none"][0] != "ok":
+                        continue
+                    n += 1
+                    for aname, _ in aliases:
+                        r = res[aname]
+                        if r[0] == "refused":
+                            continue
+                        if r != res["none"]:
+                            bad.append(f"[{backend},{kind}] {' >> '.join(s.label for s in cx)} >> {aname} >> {tl.label}: {str(r)[:260]} differs from the result without alias {str(res['none'])[:260]}")
+        return _enum_outcome(f"[{backend},{kind}] ctx >> alias() >> step exports the same table as ctx >> step", n, bad)
+
+    return run
+
+
 def _conc(goal, fn):
     def run(carve):
         n, bad = fn()
@@ -358,6 +459,12 @@ def obligations(tier):
     obs.append(Obligation("C16/X3/collect", "X3", "collect() keeps names, order, data, types, references and grouping", _conc("collect() on 8 pipelines x keep_col_refs", x3_check), functions=[fi(verbs_mod.collect), fi(H.table_impl_mod.TableImpl.from_resource)], bounded="8 concrete pipelines on one frame (native Polars execution)"))
     obs.append(Obligation("C16/X5/self_join", "X5", "self-join after alias() on Polars and SQLite", _conc("self-joins of aliased (derived) tables execute and match the expected row count; occurrences are aliased apart in SQL", x5_check),
                           functions=[fi(verbs_mod.join), fi(H.sql_backend.create_aliases), fi(VT.Join._clone)], bounded="3 concrete self-join shapes x 2 backends (native execution)"))
+    obs.append(Obligation("C16/X5b/self_join_sides", "X5", "self-join with the alias copy on either side: references denote the right side", _conc("references through either table object of an aliased self-join denote that side (4 shapes x 2 backends, against a hand-computed expectation)", x5b_check),
+                          functions=[fi(verbs_mod.join), fi(VT.Join._clone), fi(VT.Alias._clone)], bounded="4 concrete self-join shapes x 2 backends (native execution)"))
+    for be in ("polars", "sqlite"):
+        for kind in ("mixed", "single") if tier == "quick" else ("mixed", "single", "empty", "tall"):
+            obs.append(Obligation(f"C16/X6/{be}/{kind}", "X6", "alias() / alias(keep_col_refs=True) is transparent for every following step", make_x6(be, kind), functions=[fi(verbs_mod.alias), fi(TS.Cache.update), fi(VT.Alias._clone)],
+                                  bounded="18 context pipelines (incl. hidden grouping columns) x 13 following steps; native execution"))
     return obs
 
 
